@@ -108,7 +108,10 @@ def judge(run: Run, stream, case, before, after, res, model):
     if "prefixes" not in model or "out" not in model.get("result", {}):
         run.mismatch(stream, case, res, model.get("result"), "model raises, implementation does not")
         return
-    _, nsmap = declared_map(out)
+    try:
+        _, nsmap = declared_map(out)
+    except Exception:  # noqa: BLE001  not namespace-well-formed: already reported by the oracle above
+        return
     nsmap.pop("xml", None)
     if nsmap != model_map(model["prefixes"]):
         run.mismatch(stream, case, nsmap, model_map(model["prefixes"]), "declared prefixes differ")
